@@ -167,7 +167,13 @@ _strtoll (const char *nptr, char **endptr, int base)
 {
   int neg = 0;
   orc_int64 val = 0;
-  
+  const char *start = nptr;
+
+  /* No conversion is performed: like strtoll(), report the start of the
+   * string as the end of the number */
+  if (endptr)
+    *endptr = (char *) start;
+
   /* Skip all spaces */
   while (isspace (*nptr))
     nptr++;
